@@ -1,4 +1,5 @@
 import MesaModel.Proofs.Signals
+import MesaModel.Proofs.SignalsReentrant
 /-!
 # C16 — signals describe every change exactly once, to exactly the subscribers
 
@@ -274,5 +275,90 @@ example : (run (init exDecls) [.observe .all (.one .append) 7, .lassign 1 [], .o
     [.err .value, .ok [], .ok [], .ok [],
      .ok [(7, ⟨1, .append, .none, .int 5, .int 0⟩), (7, ⟨1, .append, .none, .int 5, .int 0⟩)], .ok [], .ok []] := by
   decide
+
+/-! ### handlers that subscribe / unsubscribe / clear while they are being notified
+
+`runR progs s ops`: the same machine, but handler `h`, whenever it is called, makes the registry calls `progs h`
+(`observe`, `unobserve`, `clear_all_subscriptions`, with names / types / `All()`) before it returns.  One round of
+`_mesa_notify` (G13 repaired) = `roundLoop`: the subscriber list as it was when the signal was emitted is walked in
+order; the registry the calls act on is the live one. -/
+
+/-- Handlers that make no calls are the passive handlers of all theorems above: the two machines coincide. -/
+theorem C16_reentrant_passive_is_run {progs : Nat → List Act} (hp : ∀ h, progs h = []) (s : St) (ops : List Op) :
+    runR progs s ops = run s ops :=
+  runR_passive hp s ops
+
+/-- **A round of notification leaves the registry to the handlers** (fails with G13, where the list the round
+    started from was written back and undid every `unobserve` / `clear_all_subscriptions` made meanwhile): after the
+    round the registry is what the calls of the handlers that were called, in the order they were called, made of
+    it — apart from the dead references dropped from the list of the signal. -/
+theorem C16_reentrant_round_registry (progs : Nat → List Act) (r : Reg Nat) (alive : Nat → Bool) (n : Nat) (t : SigType) :
+    let called := (r.deliverR progs alive n t).2
+    let r' := r.acts alive (called.flatMap progs)
+    (r.deliverR progs alive n t).1 = r'.setSubs n t ((r'.subs n t).filter alive) := by
+  obtain ⟨new, h1, h2, _, _⟩ := roundLoop_spec progs alive n t (r.subs n t) r []
+  simp only [Reg.deliverR, h1, h2, List.nil_append]
+
+/-- **Only subscribers are called — "after `unobserve` or `clear_all_subscriptions` a handler receives nothing more",
+    also inside a round**: the handlers called for a signal are taken, in order, from the live subscribers the signal
+    had when it was emitted, and each of them is, when its turn comes, still subscribed in the registry as the calls
+    of the handlers called before it have left it. -/
+theorem C16_reentrant_called_are_subscribed (progs : Nat → List Act) (r : Reg Nat) (alive : Nat → Bool) (n : Nat)
+    (t : SigType) :
+    let called := (r.deliverR progs alive n t).2
+    called.Sublist ((r.subs n t).filter alive) ∧
+    ∀ pre h post, called = pre ++ h :: post →
+      alive h = true ∧ h ∈ (r.acts alive (pre.flatMap progs)).subs n t := by
+  obtain ⟨new, h1, _, h3, h4⟩ := roundLoop_spec progs alive n t (r.subs n t) r []
+  simp only [Reg.deliverR, h1, List.nil_append]
+  exact ⟨h3, h4⟩
+
+/-- **Every handler nobody unsubscribes is called, once per subscription**: a live handler that none of the calls made
+    during the round takes out of the list of the signal (`Act.keeps`: e.g. `observe` of anything, `unobserve` of
+    another handler, `clear_all_subscriptions` of another observable) receives the signal exactly as often as it is
+    subscribed. -/
+theorem C16_reentrant_untouched_called_once_per_subscription (progs : Nat → List Act) {r : Reg Nat} (w : r.WF)
+    (alive : Nat → Bool) (n : Nat) (t : SigType) (h : Nat) (hal : alive h = true)
+    (hk : ∀ g ∈ r.subs n t, ∀ a ∈ progs g, a.keeps alive h n t) :
+    (r.deliverR progs alive n t).2.count h = (r.subs n t).count h := by
+  have := roundLoop_complete progs alive n t h hal (r.subs n t) r [] w hk id
+  simpa [Reg.deliverR] using this
+
+/-- **The registry is the history of all registry calls, those made by handlers included** (∀ classes, ∀ histories,
+    ∀ handler programs): after any history each subscriber list holds — as far as live handlers are concerned —
+    exactly what the loop-free table `specSubs` says for the history in which every operation is followed by the
+    calls of the handlers it reached, in the order they were reached. -/
+theorem C16_reentrant_registry_is_call_history {ds : List Decl} (hds : DeclsOK ds) (progs : Nat → List Act)
+    (ops : List Op) :
+    Refines (runR progs (init ds) ops).1
+      (specSubs (init ds).reg (flatOps progs ops (runR progs (init ds) ops).2)) :=
+  (runR_refines (init_wf hds) progs ops rfl (fun _ _ => rfl)).2
+
+/-! non-vacuity: handlers 1 (one-shot: unsubscribes itself), 2 (passive), 3 (unsubscribes 2), 4 (clears the observable),
+    5 (subscribes 2) on the Observable 0 of `exDecls` -/
+
+def exProgs : Nat → List Act
+  | 1 => [.unobserve (.one 0) (.one .change) 1]
+  | 3 => [.unobserve .all .all 2]
+  | 4 => [.clear (.one 0)]
+  | 5 => [.observe (.one 0) .all 2]
+  | _ => []
+
+/-- a one-shot handler is called once (with G13 it stayed subscribed and was called for every later signal) -/
+example : (runR exProgs (init exDecls) [.observe (.one 0) (.one .change) 1, .observe .all .all 2, .assign 0 1,
+      .assign 0 2]).2.map (fun o => match o with | .ok ds => ds.map (·.1) | .err _ => []) =
+    [[], [], [1, 2], [2]] := by decide
+
+/-- a handler unsubscribed by a handler called before it does not get the signal in flight, nor any later one;
+    `clear_all_subscriptions` inside a handler holds; a handler subscribed inside a round is called from the next
+    signal on -/
+example : (runR exProgs (init exDecls) [.observe .all .all 3, .observe .all .all 2, .assign 0 1, .assign 0 2,
+      .observe (.one 0) .all 4, .observe (.one 0) .all 2, .assign 0 3, .assign 0 4,
+      .observe (.one 0) .all 5, .assign 0 5, .assign 0 6]).2.map
+        (fun o => match o with | .ok ds => ds.map (·.1) | .err _ => []) =
+    [[], [], [3], [3], [], [], [3, 4], [], [], [5], [5, 2]] := by decide
+
+/-- non-vacuity of `Act.keeps` in `C16_reentrant_untouched_called_once_per_subscription` -/
+example : (Act.observe (.one 0) .all 2).keeps (fun _ => true) 7 0 .change := Act.keeps_observe _ _ _ _ _ _ _
 
 end Mesa.Signals
